@@ -14,6 +14,10 @@
 //!   syntax errors or another shape is discarded and counted; it never reaches the verdict.
 //!   Histories (chains of up to L rewrites) are written as the original followed by one line per
 //!   step, each with the modules that changed.
+//!   `--rename-apart [--max-steps N]`: instead, one history per program that renames, step after step,
+//!   every binder whose name is bound more than once in its module.
+//!   RenameLocal instances (binders, their occurrences, which binders are in a name clash) come from the
+//!   reference reading of the PARSED tree (spec/RewritesNames.tla), not from the checker under test.
 //!
 //! `vh rewrite-break --in PROGRAMS.ndjson --out FILE --seed S --per-program K`
 //!   derives statically wrong programs (one injected type error each) from well-typed ones.
@@ -276,6 +280,384 @@ fn analyse(sources: &BTreeMap<String, String>, with_std: bool) -> Result<Analysi
     .map_err(|e| format!("check: {e}"))?;
   let errors = error_set.errors().len();
   Ok(Analysis { heap, texts: sources.clone(), refs, parsed, checked, syntax_errors, errors })
+}
+
+// ------------------------------------------------------------------------------------------------
+// the REFERENCE reading of local names (spec/RewritesNames.tla).  From the parsed (un-typed) tree of
+// a module this extracts what Rewrites.tla calls Binders / Parent / Uses / ScopeOf / bname / uname,
+// following the scoping rules of the language (a member's parameters scope over its body; a `let`
+// over the rest of its block; a lambda's parameters over its body; the names of a match arm's
+// pattern over that arm; the names of an `if let` pattern over the THEN block only; of an
+// or-pattern the first alternative binds and the later ones refer to it), and transcribes the
+// operators ChainOf / FirstNamed / ResolveIn / ClashingIn.  Which binders RenameLocal may rename
+// and which occurrences go with a binder is decided by this reading — NOT by the checker under
+// test: a checker that reports a clash where the language has none (or resolves a name to another
+// binder) must not be able to hide the programs on which renaming then flips its verdict.
+// The transcription is confirmed by TLC on every judged RenameLocal step
+// (spec/RewritesNamesTrace.tla) and compared with the checker's own resolution (census only).
+// ------------------------------------------------------------------------------------------------
+
+#[derive(Clone, Copy, PartialEq, Eq, Debug)]
+enum BK {
+  This,
+  Param,
+  Let,
+  Arm,
+  IfLet,
+  Lambda,
+}
+
+impl BK {
+  fn s(self) -> &'static str {
+    match self {
+      BK::This => "this",
+      BK::Param => "param",
+      BK::Let => "let",
+      BK::Arm => "arm",
+      BK::IfLet => "iflet",
+      BK::Lambda => "lambda",
+    }
+  }
+}
+
+struct RefBinder {
+  loc: Location,
+  name: PStr,
+  /// 1-based id of the binder whose scope directly encloses this one (0: none)
+  parent: usize,
+  kind: BK,
+  /// index of the member (over all toplevels of the module) the binder belongs to
+  member: usize,
+  /// binds a name that the guard pattern of an enclosing `if let` binds, from inside that if-let's ELSE branch
+  in_else_of_guard_with_same_name: bool,
+}
+
+struct RefUse {
+  loc: Location,
+  name: PStr,
+  /// 1-based id of the innermost binder in whose scope the use stands (0: none)
+  scope: usize,
+  member: usize,
+}
+
+#[derive(Default)]
+struct RefNames {
+  binders: Vec<RefBinder>,
+  uses: Vec<RefUse>,
+}
+
+impl RefNames {
+  /// FirstNamed(bn, ChainOf(Parent, from), n)
+  fn first_named(&self, from: usize, n: PStr) -> usize {
+    let mut b = from;
+    while b != 0 {
+      let x = &self.binders[b - 1];
+      if x.name == n {
+        return b;
+      }
+      b = x.parent;
+    }
+    0
+  }
+  /// ResolveIn(Parent, ScopeOf, bname, uname, u)   (u: 0-based index)
+  fn resolve(&self, u: usize) -> usize {
+    self.first_named(self.uses[u].scope, self.uses[u].name)
+  }
+  /// b \in ClashingIn(Parent, Binders, bname)   (b: 1-based id)
+  fn clashing(&self, b: usize) -> bool {
+    let x = &self.binders[b - 1];
+    self.first_named(x.parent, x.name) != 0
+  }
+}
+
+struct RefWalker {
+  out: RefNames,
+  /// the scopes that are open, each with the binders made in it so far
+  frames: Vec<Vec<usize>>,
+  member: usize,
+  /// names bound by the guard patterns of the if-lets in whose ELSE branch the walk stands
+  else_of: Vec<Vec<PStr>>,
+}
+
+impl RefWalker {
+  fn innermost(&self) -> usize {
+    self.frames.iter().rev().find_map(|f| f.last().copied()).unwrap_or(0)
+  }
+  fn push(&mut self) {
+    self.frames.push(vec![]);
+  }
+  fn pop(&mut self) {
+    self.frames.pop();
+  }
+  fn bind(&mut self, loc: Location, name: PStr, kind: BK) -> usize {
+    let parent = self.innermost();
+    let in_else = self.else_of.iter().any(|g| g.contains(&name));
+    self.out.binders.push(RefBinder { loc, name, parent, kind, member: self.member, in_else_of_guard_with_same_name: in_else });
+    let id = self.out.binders.len();
+    self.frames.last_mut().expect("a scope is open").push(id);
+    id
+  }
+  fn use_(&mut self, loc: Location, name: PStr) {
+    let scope = self.innermost();
+    self.out.uses.push(RefUse { loc, name, scope, member: self.member });
+  }
+
+  fn pat(&mut self, p: &pattern::MatchingPattern<()>, kind: BK, bound: &mut Vec<PStr>) {
+    match p {
+      pattern::MatchingPattern::Tuple(t) => t.elements.iter().for_each(|e| self.pat(&e.pattern, kind, bound)),
+      pattern::MatchingPattern::Object { elements, .. } => elements.iter().for_each(|e| self.pat(&e.pattern, kind, bound)),
+      pattern::MatchingPattern::Variant(v) => {
+        v.data_variables.iter().flat_map(|d| &d.elements).for_each(|e| self.pat(&e.pattern, kind, bound))
+      }
+      pattern::MatchingPattern::Id(id, ()) => {
+        self.bind(id.loc, id.name, kind);
+        bound.push(id.name);
+      }
+      pattern::MatchingPattern::Wildcard { .. } => {}
+      pattern::MatchingPattern::Or { patterns, .. } => {
+        let mut it = patterns.iter();
+        if let Some(f) = it.next() {
+          self.pat(f, kind, bound);
+        }
+        for q in it {
+          self.pat_as_uses(q);
+        }
+      }
+    }
+  }
+  /// the later alternatives of an or-pattern refer to the names the first alternative binds
+  fn pat_as_uses(&mut self, p: &pattern::MatchingPattern<()>) {
+    match p {
+      pattern::MatchingPattern::Tuple(t) => t.elements.iter().for_each(|e| self.pat_as_uses(&e.pattern)),
+      pattern::MatchingPattern::Object { elements, .. } => elements.iter().for_each(|e| self.pat_as_uses(&e.pattern)),
+      pattern::MatchingPattern::Variant(v) => {
+        v.data_variables.iter().flat_map(|d| &d.elements).for_each(|e| self.pat_as_uses(&e.pattern))
+      }
+      pattern::MatchingPattern::Id(id, ()) => self.use_(id.loc, id.name),
+      pattern::MatchingPattern::Wildcard { .. } => {}
+      pattern::MatchingPattern::Or { patterns, .. } => patterns.iter().for_each(|q| self.pat_as_uses(q)),
+    }
+  }
+
+  fn expr(&mut self, e: &expr::E<()>) {
+    match e {
+      expr::E::Literal(..) | expr::E::ClassId(..) => {}
+      expr::E::LocalId(_, id) => self.use_(id.loc, id.name),
+      expr::E::Tuple(_, l) => l.expressions.iter().for_each(|x| self.expr(x)),
+      expr::E::FieldAccess(f) => self.expr(&f.object),
+      expr::E::MethodAccess(f) => self.expr(&f.object),
+      expr::E::Unary(u) => self.expr(&u.argument),
+      expr::E::Call(c) => {
+        self.expr(&c.callee);
+        c.arguments.expressions.iter().for_each(|x| self.expr(x));
+      }
+      expr::E::Binary(b) => {
+        self.expr(&b.e1);
+        self.expr(&b.e2);
+      }
+      expr::E::IfElse(i) => self.if_else(i),
+      expr::E::Match(m) => {
+        self.expr(&m.matched);
+        for c in &m.cases {
+          self.push();
+          self.pat(&c.pattern, BK::Arm, &mut vec![]);
+          self.expr(&c.body);
+          self.pop();
+        }
+      }
+      expr::E::Lambda(l) => {
+        self.push();
+        for p in &l.parameters.parameters {
+          self.bind(p.name.loc, p.name.name, BK::Lambda);
+        }
+        self.expr(&l.body);
+        self.pop();
+      }
+      expr::E::Block(b) => self.block(b),
+    }
+  }
+  fn if_else(&mut self, i: &expr::IfElse<()>) {
+    let mut guard_names = vec![];
+    match i.condition.as_ref() {
+      expr::IfElseCondition::Expression(c) => {
+        self.expr(c);
+        self.block(&i.e1);
+      }
+      expr::IfElseCondition::Guard(p, c) => {
+        // the matched expression stands outside the pattern's scope; the pattern's names are
+        // visible in the THEN block and nowhere else
+        self.expr(c);
+        self.push();
+        self.pat(p, BK::IfLet, &mut guard_names);
+        self.block(&i.e1);
+        self.pop();
+      }
+    }
+    self.else_of.push(guard_names);
+    match i.e2.as_ref() {
+      expr::IfElseOrBlock::IfElse(n) => self.if_else(n),
+      expr::IfElseOrBlock::Block(b) => self.block(b),
+    }
+    self.else_of.pop();
+  }
+  fn block(&mut self, b: &expr::Block<()>) {
+    self.push();
+    for s in &b.statements {
+      match s {
+        expr::Statement::Declaration(d) => {
+          // the right-hand side does not see the names the statement binds
+          self.expr(&d.assigned_expression);
+          self.pat(&d.pattern, BK::Let, &mut vec![]);
+        }
+        expr::Statement::Expression(e) => self.expr(e),
+      }
+    }
+    if let Some(e) = &b.expression {
+      self.expr(e);
+    }
+    self.pop();
+  }
+}
+
+fn reference_names(module: &Module<()>) -> RefNames {
+  let mut w = RefWalker { out: RefNames::default(), frames: vec![], member: 0, else_of: vec![] };
+  for t in &module.toplevels {
+    let bodies: Vec<(&samlang_ast::source::ClassMemberDeclaration, Option<&expr::E<()>>)> = match t {
+      Toplevel::Class(c) => c.members.members.iter().map(|m| (&m.decl, Some(&m.body))).collect(),
+      Toplevel::Interface(i) => i.members.members.iter().map(|m| (m, None)).collect(),
+    };
+    for (decl, body) in bodies {
+      w.frames.clear();
+      w.else_of.clear();
+      w.push();
+      if t.is_class() && decl.is_method {
+        w.bind(t.loc(), PStr::THIS, BK::This);
+      }
+      w.push();
+      for p in decl.parameters.parameters.iter() {
+        w.bind(p.name.loc, p.name.name, BK::Param);
+      }
+      if let Some(b) = body {
+        w.expr(b);
+      }
+      w.member += 1;
+    }
+  }
+  w.out
+}
+
+/// what RenameLocal needs to know about one binder, by the reference reading
+#[derive(Clone)]
+struct RenameInfo {
+  def: Location,
+  name: String,
+  /// the binder and the uses that resolve to it
+  occurrences: Vec<Location>,
+  /// the checker's own analysis (ssa_analysis.rs) says the same about this binder: same clash
+  /// status, same uses
+  checker_agrees: bool,
+  /// the structure of the member the binder stands in, for spec/RewritesNamesTrace.tla (None: too large)
+  row: Option<Value>,
+}
+
+const NAMES_ROW_MAX_BINDERS: usize = 120;
+
+/// the rename instances of a module by the reference reading, and the features met (census)
+fn reference_rename_sites(heap: &Heap, m: ModuleReference, parsed: &Module<()>, features: &mut BTreeMap<&'static str, usize>) -> Vec<RenameInfo> {
+  fn feat(features: &mut BTreeMap<&'static str, usize>, f: String) {
+    thread_local! { static NAMES: RefCell<HashMap<String, &'static str>> = RefCell::new(HashMap::new()); }
+    let k: &'static str = NAMES.with(|n| *n.borrow_mut().entry(f.clone()).or_insert_with(|| Box::leak(f.into_boxed_str())));
+    *features.entry(k).or_default() += 1;
+  }
+  let rn = reference_names(parsed);
+  let nb = rn.binders.len();
+  let resolved: Vec<usize> = (0..rn.uses.len()).map(|u| rn.resolve(u)).collect();
+  let clashing: Vec<bool> = (1..=nb).map(|b| rn.clashing(b)).collect();
+  let clash_names: HashSet<(usize, PStr)> =
+    (0..nb).filter(|b| clashing[*b]).map(|b| (rn.binders[b].member, rn.binders[b].name)).collect();
+  // the checker's own reading, for comparison
+  let mut scratch = samlang_errors::ErrorSet::new();
+  let ssa = guarded(|| samlang_checker::perform_ssa_analysis_on_module(m, parsed, &mut scratch)).ok();
+  let mut uses_of: Vec<Vec<usize>> = vec![vec![]; nb + 1];
+  for (u, b) in resolved.iter().enumerate() {
+    uses_of[*b].push(u);
+  }
+  // census: a name bound again after the scope of an earlier binder of that name was closed
+  let mut seen: HashMap<(usize, PStr), Vec<usize>> = HashMap::new();
+  for b in 1..=nb {
+    let x = &rn.binders[b - 1];
+    if x.kind == BK::This {
+      continue;
+    }
+    if !clashing[b - 1] {
+      if let Some(earlier) = seen.get(&(x.member, x.name)) {
+        for e in earlier {
+          feat(features, format!("name_bound_again_after_scope_closed:{}_then_{}", rn.binders[*e - 1].kind.s(), x.kind.s()));
+        }
+        feat(features, "binders_reusing_the_name_of_a_closed_scope".to_string());
+      }
+      if x.in_else_of_guard_with_same_name {
+        feat(features, format!("if_let_guard_name_bound_again_in_else_branch:{}", x.kind.s()));
+      }
+    }
+    seen.entry((x.member, x.name)).or_default().push(b);
+  }
+  let mut out = vec![];
+  for b in 1..=nb {
+    let x = &rn.binders[b - 1];
+    if x.kind == BK::This || x.name == PStr::THIS {
+      continue;
+    }
+    feat(features, "local_binders".to_string());
+    let checker_agrees = match &ssa {
+      None => false,
+      Some(ssa) => {
+        let mine: BTreeSet<Location> = uses_of[b].iter().map(|u| rn.uses[*u].loc).chain(std::iter::once(x.loc)).collect();
+        let theirs: BTreeSet<Location> = ssa.def_to_use_map.get(&x.loc).map(|v| v.iter().copied().collect()).unwrap_or_default();
+        mine == theirs && ssa.invalid_defines.contains(&x.loc) == clashing[b - 1]
+      }
+    };
+    if !checker_agrees {
+      feat(features, "local_binders_the_checker_reads_differently".to_string());
+    }
+    if clashing[b - 1] || clash_names.contains(&(x.member, x.name)) {
+      // Rewrites!RenameLocal: b \notin Clashing /\ bname[b] \notin {bname[c] : c \in Clashing}
+      feat(features, "local_binders_in_a_name_clash".to_string());
+      continue;
+    }
+    let mut occurrences = vec![x.loc];
+    occurrences.extend(uses_of[b].iter().map(|u| rn.uses[*u].loc));
+    // the member's structure, renumbered, for TLC
+    let ids: Vec<usize> = (1..=nb).filter(|c| rn.binders[*c - 1].member == x.member).collect();
+    let row = if ids.len() <= NAMES_ROW_MAX_BINDERS {
+      let renum: HashMap<usize, usize> = ids.iter().enumerate().map(|(i, c)| (*c, i + 1)).collect();
+      let r = |c: usize| if c == 0 { 0 } else { renum[&c] };
+      let us: Vec<usize> = (0..rn.uses.len()).filter(|u| rn.uses[*u].member == x.member).collect();
+      Some(json!({
+        "parent": ids.iter().map(|c| r(rn.binders[*c - 1].parent)).collect::<Vec<_>>(),
+        "bname": ids.iter().map(|c| rn.binders[*c - 1].name.as_str(heap)).collect::<Vec<_>>(),
+        "scope": us.iter().map(|u| r(rn.uses[*u].scope)).collect::<Vec<_>>(),
+        "uname": us.iter().map(|u| rn.uses[*u].name.as_str(heap)).collect::<Vec<_>>(),
+        "b": r(b),
+        "occ": us.iter().enumerate().filter(|(_, u)| resolved[**u] == b).map(|(i, _)| i + 1).collect::<Vec<_>>(),
+      }))
+    } else {
+      None
+    };
+    out.push(RenameInfo { def: x.loc, name: x.name.as_str(heap).to_string(), occurrences, checker_agrees, row });
+  }
+  // uses the checker resolves differently (unbound here / there, or another binder)
+  if let Some(ssa) = &ssa {
+    for (u, b) in resolved.iter().enumerate() {
+      let mine = if *b == 0 { None } else { Some(rn.binders[*b - 1].loc) };
+      let theirs = ssa.use_define_map.get(&rn.uses[u].loc).copied();
+      feat(features, "local_uses".to_string());
+      if mine != theirs {
+        feat(features, "local_uses_the_checker_resolves_differently".to_string());
+      }
+    }
+  }
+  out
 }
 
 // ------------------------------------------------------------------------------------------------
@@ -863,7 +1245,8 @@ fn type_text_shape(heap: &Heap, cx: &NameCx, t: &Type) -> Option<(String, String
 
 #[derive(Clone)]
 enum SiteData {
-  Rename { def: Location, name: String },
+  /// `occurrences`: the binder and the uses that resolve to it by the reference reading
+  Rename { def: Location, name: String, occurrences: Vec<Location>, checker_agrees: bool, row: Option<Value> },
   ReorderTop { i: usize, j: usize },
   ReorderMem { top: usize, i: usize, j: usize },
   Paren { loc: Location },
@@ -896,7 +1279,7 @@ fn loc_str(l: &Location) -> String {
 impl Site {
   fn describe(&self) -> String {
     let d = match &self.data {
-      SiteData::Rename { def, name } => format!("{name}@{}", loc_str(def)),
+      SiteData::Rename { def, name, .. } => format!("{name}@{}", loc_str(def)),
       SiteData::ReorderTop { i, j } => format!("toplevels {i}<->{j}"),
       SiteData::ReorderMem { top, i, j } => format!("toplevel {top} members {i}<->{j}"),
       SiteData::Paren { loc } | SiteData::Block { loc } => loc_str(loc),
@@ -1249,17 +1632,16 @@ fn collect_sites_and_features(a: &Analysis, entry: &str) -> (Vec<Site>, BTreeMap
         col.push(7, SiteData::Split { top: ti });
       }
     }
-    // local binders that the checker's own resolution knows, and that are not part of a name clash
-    let mut scratch = samlang_errors::ErrorSet::new();
-    if let Ok(ssa) = guarded(|| samlang_checker::perform_ssa_analysis_on_module(*m, parsed, &mut scratch)) {
-      let clash_names: HashSet<PStr> =
-        col.binders.iter().filter(|(l, _)| ssa.invalid_defines.contains(l)).map(|(_, n)| *n).collect();
-      let binders = std::mem::take(&mut col.binders);
-      for (loc, n) in binders {
-        if n == PStr::THIS || clash_names.contains(&n) || !ssa.def_to_use_map.contains_key(&loc) {
-          continue;
-        }
-        col.push(0, SiteData::Rename { def: loc, name: n.as_str(&a.heap).to_string() });
+    // local binders by the REFERENCE reading of the parsed tree (not by the checker under test), except
+    // those that take part in a name clash by that reading
+    col.binders.clear();
+    let mut rename_features: BTreeMap<&'static str, usize> = BTreeMap::new();
+    for r in reference_rename_sites(&a.heap, *m, parsed, &mut rename_features) {
+      col.push(0, SiteData::Rename { def: r.def, name: r.name, occurrences: r.occurrences, checker_agrees: r.checker_agrees, row: r.row });
+    }
+    if !is_std {
+      for (f, n) in rename_features {
+        *col.features.entry(f).or_default() += n;
       }
     }
     all.extend(col.sites);
@@ -1455,10 +1837,8 @@ fn apply_site(a: &Analysis, site: &Site, rng: &mut Rng) -> Result<Applied, &'sta
   let mut new_modules = BTreeMap::new();
   let mut split_info = None;
   match &site.data {
-    SiteData::Rename { def, name } => {
-      let mut scratch = samlang_errors::ErrorSet::new();
-      let ssa = guarded(|| samlang_checker::perform_ssa_analysis_on_module(m, parsed, &mut scratch)).map_err(|_| "ssa-crash")?;
-      let occurrences: BTreeSet<Location> = ssa.def_to_use_map.get(def).ok_or("no-def")?.iter().copied().collect();
+    SiteData::Rename { name, occurrences, .. } => {
+      let occurrences: BTreeSet<Location> = occurrences.iter().copied().collect();
       let fresh = fresh_ident(a, rng);
       let shorthand = shorthand_locs(parsed);
       let mut edits = vec![];
@@ -1766,10 +2146,23 @@ fn try_site(
   Some((applied.sources, next))
 }
 
+/// RenameLocal steps carry the member's binding structure (for spec/RewritesNamesTrace.tla) and whether
+/// the checker's own resolution says the same about the binder
+fn rename_extras(site: &Site, step: &mut Value) {
+  if let SiteData::Rename { checker_agrees, row, .. } = &site.data {
+    step["checker_agrees"] = json!(checker_agrees);
+    if let Some(r) = row {
+      step["names"] = r.clone();
+    }
+  }
+}
+
 pub fn main(args: &[String]) {
   silence_panics();
   let exhaustive = flag(args, "--exhaustive");
   let max_per_kind: usize = arg_or(args, "--max-per-kind", "0").parse().unwrap();
+  let rename_apart = flag(args, "--rename-apart");
+  let max_steps: usize = arg_or(args, "--max-steps", "60").parse().unwrap();
   let mut features: BTreeMap<&'static str, usize> = BTreeMap::new();
   let input = std::fs::read_to_string(arg(args, "--in").expect("--in")).unwrap();
   let out = arg(args, "--out").expect("--out");
@@ -1807,6 +2200,67 @@ pub fn main(args: &[String]) {
     for (f, n) in base_features {
       *features.entry(f).or_default() += n;
     }
+    if rename_apart {
+      // one history per program: RenameLocal, step after step, of every binder whose name is bound more than
+      // once in its module, until all such names are distinct.  Every step is an instance of its own (fresh
+      // name, reference reading), so the verdict has to survive each of them; a program that the tree under
+      // test rejects only because it keeps some scope open too long ends accepted, whichever and however
+      // many of its binders are involved.
+      let kind = 0;
+      let mut cur_sources = sources.clone();
+      let mut cur: Option<Analysis> = None;
+      let mut tried: HashSet<String> = HashSet::new();
+      let mut k = 0;
+      while k < max_steps {
+        let a = cur.as_ref().unwrap_or(&base);
+        let sites_owned;
+        let sites: &Vec<Site> = if cur.is_none() {
+          &base_sites
+        } else {
+          sites_owned = collect_sites(a, &entry);
+          &sites_owned
+        };
+        let mut count: HashMap<(&str, &str), usize> = HashMap::new();
+        for s in sites.iter() {
+          if let SiteData::Rename { name, .. } = &s.data {
+            *count.entry((s.module.as_str(), name.as_str())).or_default() += 1;
+          }
+        }
+        let next_site = sites.iter().find(|s| match &s.data {
+          SiteData::Rename { name, .. } => {
+            !s.module.starts_with("std.")
+              && count[&(s.module.as_str(), name.as_str())] >= 2
+              && !tried.contains(&s.describe())
+          }
+          _ => false,
+        });
+        let site = match next_site {
+          Some(s) => s.clone(),
+          None => break,
+        };
+        let desc = site.describe();
+        tried.insert(desc.clone());
+        if avoid.iter().any(|(ak, c)| ak == KINDS[kind] && a.texts.get(&site.module).map(|t| t.contains(c.as_str())).unwrap_or(false)) {
+          *stats[kind].discarded.entry("known-finding-signature".into()).or_default() += 1;
+          continue;
+        }
+        if let Some((new_sources, next)) = try_site(a, &site, &desc, &mut rng, with_std, &mut stats[kind]) {
+          k += 1;
+          let mut step = json!({"pid": pid, "hist": 0, "step": k, "kind": KINDS[kind], "site": desc, "valid": true,
+                                "delta": delta(&cur_sources, &new_sources), "checker_errors": next.errors});
+          rename_extras(&site, &mut step);
+          writeln!(f, "{}", step).unwrap();
+          n_steps += 1;
+          cur_sources = new_sources;
+          cur = Some(next);
+          tried.clear(); // locations have moved
+        }
+      }
+      if k > 0 {
+        n_hist += 1;
+      }
+      continue;
+    }
     if exhaustive {
       // every applicable instance (per kind at most --max-per-kind, evenly spread), each a history of one step
       let mut h = 0;
@@ -1825,8 +2279,9 @@ pub fn main(args: &[String]) {
             continue;
           }
           if let Some((new_sources, next)) = try_site(&base, site, &desc, &mut rng, with_std, &mut stats[kind]) {
-            let step = json!({"pid": pid, "hist": h, "step": 1, "kind": KINDS[kind], "site": desc, "valid": true,
+            let mut step = json!({"pid": pid, "hist": h, "step": 1, "kind": KINDS[kind], "site": desc, "valid": true,
                               "delta": delta(&sources, &new_sources), "checker_errors": next.errors});
+            rename_extras(site, &mut step);
             writeln!(f, "{}", step).unwrap();
             h += 1;
             n_hist += 1;
@@ -1878,16 +2333,22 @@ pub fn main(args: &[String]) {
             first_choices.insert(format!("{kind} {desc}"));
           }
           if let Some((new_sources, next)) = try_site(a, site, &desc, &mut rng, with_std, &mut stats[kind]) {
-            done = Some((kind, desc, new_sources, next));
+            let mut extras = json!({});
+            rename_extras(site, &mut extras);
+            done = Some((kind, desc, new_sources, next, extras));
             break;
           }
         }
-        let (kind, desc, new_sources, next) = match done {
+        let (kind, desc, new_sources, next, extras) = match done {
           Some(d) => d,
           None => break,
         };
-        steps.push(json!({"pid": pid, "hist": h, "step": k, "kind": KINDS[kind], "site": desc, "valid": true,
-                          "delta": delta(&cur_sources, &new_sources), "checker_errors": next.errors}));
+        let mut step = json!({"pid": pid, "hist": h, "step": k, "kind": KINDS[kind], "site": desc, "valid": true,
+                              "delta": delta(&cur_sources, &new_sources), "checker_errors": next.errors});
+        for (k, v) in extras.as_object().unwrap() {
+          step[k] = v.clone();
+        }
+        steps.push(step);
         cur_sources = new_sources;
         cur = Some(next);
       }
